@@ -620,6 +620,8 @@ fn foreign_pool() -> Vec<Value> {
         json!({"x": 1, "y": 2, "z": 3, "label": "p", "visible": true}), json!({"x": 1, "y": 2, "z": 3}), json!({"x": 1, "y": 2}), json!({"x": 1, "y": 2, "a": 0, "b": 0, "c": 0, "d": 0, "e": 0, "f": 0, "g": 0}),
         json!({"firstName": "a", "k1": 1, "k2": 2, "k3": 3, "k4": 4, "k5": 5, "k6": 6, "k7": 7, "k8": 8}), json!({"firstName": "a", "nick": "n", "extra": 1}),
         json!({"kind": "k", "size": 1, "colour": "teal", "weight": 2, "finish": "matt"}), json!({"colour": "teal"}), json!({"color": "red", "colour": "teal", "a": 1, "b": 2}), json!({"a": 1, "b": 2, "c": 3}),
+        json!([1, 2.5, 3]), json!([104, 105.0]), json!([0.0]), json!([255.0, 256.0]), json!([104.5]), json!([1e2, 2]), json!({"a": [104, 105.0]}), json!([[104, 105.0], [1]]), json!([-0.0]), json!([1, true]),
+        json!({"Unit": {"until": "2027"}}), json!({"Unit": []}), json!({"Unit": 0}), json!({"Unit": "x"}), json!({"Close": 1}), json!({"Close": [1]}), json!({"A": {"k": 1}}), json!({"A": 2}), json!({"FIRST_ONE": {"x": 1}}), json!({"Red": [1]}),
         json!({"Ver": [7]}), json!({"Ver": [7, 8]}), json!({"Ver": []}), json!({"Pair": []}), json!({"Pair": [1]}), json!({"Pair": [1, 2, 3]}), json!({"Three": ["s"]}), json!({"Three": ["s", null]}), json!({"Three": [1]}), json!({"Ver": 7}),
         json!({"": [3, 4]}), json!({" ": {"from": 1, "": 2}}), json!({"0": -1}), json!("null"), json!({"\u{0}": [1, 2]}), json!([3, 4]), json!({"Cells": [3, 4]}), json!({"": 5, " ": "b", "0": null, "row": [{"": [1, 2]}, "null"]}),
         json!({"": 5, " ": "b", "0": {"0": 7}, "row": []}), json!([1, 2, 3, 4, 5, 6, 7, 8, 9]),
